@@ -6,6 +6,10 @@ def check(ctx):
     prog, rep = ctx.prog, ctx.rep
     n = tz.check(ctx, rep)
     rep.floor("zone-mapping call sites (TimeZone::*, with_timezone)", n, 8)
+    ng = tz.check_utc_guard(ctx, rep)
+    rep.floor("zone-omission guard obligations", ng, 3)
+    no = tz.check_offset_fields(ctx, rep)
+    rep.floor("offset field obligations", no, 3)
     from rules import escapes
     nt = escapes.check_timestamp_format(ctx, rep)
     rep.floor("timestamp formatting call sites", nt, 2)
@@ -16,7 +20,7 @@ def check(ctx):
     rep.assume("A7: chrono's FixedOffset Display is +HH:MM[:SS]")
     rep.note("Not decided: DST edges, zone-name resolution order, sub-second digits, equality of offsets after a round trip - these quantify over instants x the IANA database.")
     return ("R-TZ over all %d zone-mapping call sites of the crate: a local wall-clock time is converted to an instant only through FixedOffset / Utc "
-            "(the definition of the instant an RFC 3339 string denotes); every path from a parsed DateTime<FixedOffset> to the stored value uses "
+            "(the definition of the instant an RFC 3339 string denotes); T-TZGUARD: the zone name is omitted only under is_utc(), which is zone identity, in both writers; T-OFFSET: the Zinc reader parses hours / minutes from exactly the digit runs of the offset pattern it scanned and picks east/west by the sign character; every path from a parsed DateTime<FixedOffset> to the stored value uses "
             "instant-preserving operations (with_timezone, from_utc_datetime). The pinned tree re-interpreted the local time in a zone guessed from "
             "the offset text (chrono_tz::Tz::from_local_datetime), which this rule reports. Plus R-PANIC over %d bodies of the timezone helpers." % (n, len(reach)))
 
